@@ -213,3 +213,13 @@ def map_shapes(ops: list, m: dict) -> list:
             op[2] = m.get(op[2], op[2])
         out.append(op)
     return out
+
+
+def wellformed_flags(ops: list) -> list:
+    """Per operation: is it well-formed in the abstract state reached so far (an ill-formed one must raise)."""
+    st: dict = {}
+    flags = []
+    for op in ops:
+        st, wf, _ = abstract_step(st, op)
+        flags.append(bool(wf))
+    return flags
